@@ -17,6 +17,8 @@ import (
 	"runtime/debug"
 	"strings"
 	"time"
+
+	jmespath "github.com/jmespath/go-jmespath"
 )
 
 type Case struct {
@@ -111,6 +113,7 @@ func (r *Run) addSearch(family, expr string, doc interface{}, mode string) *Case
 	before := deepCopy(doc)
 	o := observeSearch(expr, doc)
 	r.generic(family, expr, before, doc, o)
+	r.crossAPI(family, expr, before, mode, o)
 	c := Case{ID: len(r.cases), Family: family, Kind: "search", Expr: expr, Doc: before, Mode: mode, Go: o.String(), goObs: o}
 	c.Prelude = takePrelude()
 	r.cases = append(r.cases, c)
@@ -129,6 +132,7 @@ func (r *Run) addTree(family string, t *Ex, text string, doc interface{}, mode s
 	a := observeCompile(text)
 	o := observeSearch(text, doc)
 	r.generic(family, text, before, doc, o)
+	r.crossAPI(family, text, before, mode, o)
 	c := Case{ID: len(r.cases), Family: family, Kind: "tree", Expr: text, Doc: before, Mode: mode, Tree: t, TreeS: t.coq(), Go: o.String(), goObs: o, goAst: a}
 	c.Prelude = takePrelude()
 	r.cases = append(r.cases, c)
@@ -167,6 +171,27 @@ func (r *Run) addTok(family, expr string) *Case {
 	r.cases = append(r.cases, c)
 	r.count("lex:" + t.Kind)
 	return &r.cases[len(r.cases)-1]
+}
+
+// crossAPI: for the properties whose statement fixes the result of every call (and for C13),
+// Compile(expr).Search(doc) must give what the one-shot Search gave on the same input
+// (compared when the result does not expose the iteration order of an object).
+var crossAPIProps = map[string]bool{"C01": true, "C02": true, "C03": true, "C07": true, "C08": true, "C09": true, "C10": true,
+	"C11": true, "C13": true, "C14": true, "C15": true, "C16": true}
+
+func (r *Run) crossAPI(family, expr string, doc interface{}, mode string, o Obs) {
+	if mode != "exact" || !crossAPIProps[r.prop] || (o.Kind != "val" && o.Kind != "evalerr") {
+		return
+	}
+	jp, err := jmespath.Compile(expr)
+	if err != nil {
+		return
+	}
+	oc := obsOfSearchCompiled(jp, deepCopy(doc))
+	r.count("crossapi")
+	if canon(o, false) != canon(oc, false) {
+		r.violate(family, expr, doc, "Compile(...).Search differs from the one-shot Search on the same input", "one-shot: "+o.String()+" compiled: "+oc.String())
+	}
 }
 
 // generic evaluates, on every observed Search, the direct oracles of the
